@@ -12,6 +12,7 @@ import JV.Proofs.Number
 import JV.Proofs.BigInt
 import JV.Proofs.BigIntMul
 import JV.Proofs.BigIntShift
+import JV.Proofs.BigIntRadix
 namespace JV.Props.C04
 open JV Model
 
@@ -114,6 +115,40 @@ theorem bigint_shr_exact (a : BigInt.Big) (k : Nat) (ha : BigInt.Words a.mag) :
     BigInt.val (BigInt.shr a k).mag = BigInt.val a.mag / 2 ^ k ∧ ((BigInt.shr a k).neg = true → a.neg = true) :=
   BigInt.shr_val a k ha
 
+/-- the string constructor (`detail::to_bigint`: `v *= 10u; v += digit` per character): every non-empty digit
+    string becomes exactly its decimal value; the sign flag is set only on request -/
+theorem bigint_parse_exact (neg : Bool) (s : Bytes) (hne : s ≠ []) (hd : AllDigits s) :
+    ∃ b, BigInt.ofDecimalDigits neg s = some b ∧ BigInt.val b.mag = decVal s ∧ BigInt.Words b.mag ∧ (b.neg = true → neg = true) :=
+  BigInt.ofDecimalDigits_ok neg s hne hd
+
+/-- … and anything else is rejected (no partial parse, no skipped character) -/
+theorem bigint_parse_rejects (neg : Bool) (s : Bytes) (h : ¬ AllDigits s) : BigInt.ofDecimalDigits neg s = none :=
+  BigInt.ofDecimalDigits_bad neg s h
+
+/-- `from_bytes_be` (`v *= 256; v += byte`): the magnitude is the big-endian value of the bytes -/
+theorem bigint_from_bytes_exact (sg : Int) (s : List Nat) (h : ∀ b ∈ s, b < 256) :
+    BigInt.val (BigInt.fromBytesBE sg s).mag = BigInt.beVal s ∧ BigInt.Words (BigInt.fromBytesBE sg s).mag ∧
+      (BigInt.fromBytesBE sg s).neg = decide (sg < 0) :=
+  BigInt.fromBytesBE_val sg s h
+
+/-- `divide` by a one-word denominator on its `num < denom`, 1×1 and half-word-loop exits (the Knuth exit is
+    not modelled: `divWord = none` there): `num = quot * d + rem`, and `rem < d` on the dividing exits -/
+theorem bigint_divWord_exact (x : List Nat) (d : Nat) (hx : BigInt.Words x) (hd : 0 < d) (q r : List Nat)
+    (h : BigInt.divWord x d = some (q, r)) :
+    BigInt.val x = BigInt.val q * d + BigInt.val r ∧ BigInt.Words q ∧
+      (¬ BigInt.cmpMag x [d] < 0 → BigInt.val r < d ∧ r.headD 0 = BigInt.val r) :=
+  BigInt.divWord_spec x d hx hd q r h
+
+/-- `write_bytes_be` (repeated `divide` by 256): the bytes are the big-endian base-256 digits of the magnitude -/
+theorem bigint_to_bytes_exact (a : BigInt.Big) (ha : BigInt.Words a.mag) :
+    BigInt.beVal (BigInt.toBytesBE a).2 = BigInt.val a.mag ∧ ∀ b ∈ (BigInt.toBytesBE a).2, b < 256 :=
+  BigInt.toBytesBE_val a ha
+
+/-- bytes written by `write_bytes_be` and read back by `from_bytes_be` give the same integer -/
+theorem bigint_bytes_roundtrip (a : BigInt.Big) (ha : BigInt.Words a.mag) :
+    BigInt.toInt (BigInt.fromBytesBE (BigInt.toBytesBE a).1 (BigInt.toBytesBE a).2) = BigInt.toInt a :=
+  BigInt.bytes_roundtrip a ha
+
 /-! ### non-vacuity -/
 example : decToU64 [49, 56, 52, 52, 54, 55, 52, 52, 48, 55, 51, 55, 48, 57, 53, 53, 49, 54, 49, 53] = .ok (2 ^ 64 - 1) := by rfl
 example : decToU64 [49, 56, 52, 52, 54, 55, 52, 52, 48, 55, 51, 55, 48, 57, 53, 53, 49, 54, 49, 54] = .error .range := by rfl
@@ -127,5 +162,12 @@ example : BigInt.shlRaw [BigInt.B - 1, 1] 65 = [0, BigInt.B - 2, 3, 0] := by dec
 example : BigInt.shr { neg := true, mag := [BigInt.B - 1, 1] } 1 = { neg := true, mag := [BigInt.B - 1] } := by decide
 -- every word shifted out: size 0 but the sign flag survives (no `reduce()` on that exit)
 example : BigInt.shr { neg := true, mag := [5] } 64 = { neg := true, mag := [] } := by decide
+-- "18446744073709551616" = 2^64
+example : BigInt.ofDecimal [49, 56, 52, 52, 54, 55, 52, 52, 48, 55, 51, 55, 48, 57, 53, 53, 49, 54, 49, 54] = some { neg := false, mag := [0, 1] } := by decide
+example : BigInt.ofDecimal [45, 48, 48] = some { neg := false, mag := [] } := by decide
+example : BigInt.ofDecimal [45] = none := by decide
+example : BigInt.toBytesBE { neg := true, mag := [0, 1] } = (-1, [1, 0, 0, 0, 0, 0, 0, 0, 0]) := by decide
+example : BigInt.fromBytesBE (-1) [1, 0, 0, 0, 0, 0, 0, 0, 0] = { neg := true, mag := [0, 1] } := by decide
+example : BigInt.divWord [6, 7] 3 = some ([6148914691236517207, 2], [1]) := by decide
 
 end JV.Props.C04
